@@ -121,6 +121,8 @@ def term_str(t):
         return t[1]
     if t[0] == "V":
         return f"var{t[1]}"
+    if t[0] == "K":
+        return f"<{t[1]}:{t[2]}>"
     return "(" + " ".join([term_str(t[1])] + [term_str(a) for a in t[2]]) + ")"
 
 
@@ -140,11 +142,20 @@ def to_repo_program(t, dsl_prims, var_types):
         return dsl_prims[t[1]]
     if t[0] == "V":
         return Variable(t[1], auto_type(ty_str(var_types[t[1]])))
+    if t[0] == "K":
+        from synth.syntax import Constant
+        return Constant(auto_type("int"), const_value(t), True)
     return Function(to_repo_program(t[1], dsl_prims, var_types), [to_repo_program(a, dsl_prims, var_types) for a in t[2]])
 
 
 def prims_by_name(dsl):
     return {p.primitive: p for p in dsl.list_primitives}
+
+
+def const_value(t):
+    """("K", python type tag, text) -> the Python value of a Constant leaf"""
+    import decimal
+    return {"int": int, "str": str, "float": float, "Decimal": decimal.Decimal}[t[1]](t[2])
 
 
 def denote(t, spec, inp):
@@ -154,6 +165,8 @@ def denote(t, spec, inp):
         return spec[t[1]][1]
     if t[0] == "V":
         return inp[t[1]]
+    if t[0] == "K":
+        return const_value(t)
     f = denote(t[1], spec, inp)
     vals = [denote(a, spec, inp) for a in t[2]]
     for v in vals:
@@ -167,7 +180,9 @@ def canon_value(v):
         return "[" + ",".join(canon_value(x) for x in v) + "]"
     if callable(v):
         return "<fun>"
-    return repr(v)
+    if isinstance(v, bool) or isinstance(v, int):
+        return repr(v)
+    return "'" + type(v).__name__ + ":" + str(v) + "'"
 
 
 def random_value(rng, ty):
